@@ -396,7 +396,7 @@ func modules() []Module {
 		{Path: "Kvass/Gen/Disc.lean", NS: "Kvass.Gen.Disc", Imports: []string{"Kvass.Types"}, Global: map[string]string{}, Sites: discSites(), Pin: []string{"pkg/discovery/discovery.go:*", "pkg/discovery/translate.go:*", "pkg/explore/explore.go:*", "pkg/scrape/manager.go:*", "cmd/kvass/coordinator.go:*"}},
 		{Path: "Kvass/Gen/Proxy.lean", NS: "Kvass.Gen.Proxy", Imports: []string{"Kvass.Types"}, Global: map[string]string{}, Sites: proxySites(), Pin: []string{"pkg/sidecar/proxy.go:*", "pkg/scrape/reader.go:*", "pkg/scrape/scraper.go:Scraper.RequestTo", "pkg/scrape/scraper.go:Scraper.ParseResponse", "pkg/scrape/scraper.go:Scraper.WithRawWriter", "pkg/scrape/scraper.go:StatisticSeries"}},
 		{Path: "Kvass/Gen/Store.lean", NS: "Kvass.Gen.Store", Imports: []string{"Kvass.Types"}, Global: map[string]string{}, Sites: storeSites(), Pin: []string{"pkg/target/target.go:*", "cmd/kvass/sidecar.go:*"}},
-		{Path: "Kvass/Gen/Sidecar.lean", NS: "Kvass.Gen.Sidecar", Imports: []string{"Kvass.Types"}, Global: map[string]string{}, Sites: sidecarSites(), Pin: []string{"pkg/sidecar/targets.go:*", "pkg/target/status.go:*", "pkg/sidecar/service.go:Service.runtimeInfo", "pkg/sidecar/service.go:Service.updateTargets", "pkg/sidecar/service.go:Service.samples", "pkg/scrape/scraper.go:StatisticSeries"}},
+		{Path: "Kvass/Gen/Sidecar.lean", NS: "Kvass.Gen.Sidecar", Imports: []string{"Kvass.Types"}, Global: map[string]string{}, Sites: sidecarSites(), Pin: []string{"pkg/sidecar/targets.go:*", "pkg/target/status.go:*", "pkg/sidecar/service.go:*", "pkg/scrape/scraper.go:StatisticSeries"}},
 		{Path: "Kvass/Gen/K8s.lean", NS: "Kvass.Gen.K8s", Imports: []string{"Kvass.Types"}, Global: map[string]string{}, Sites: k8sSites(), Pin: []string{"pkg/shard/kubernetes/shardmanager.go:*", "pkg/shard/kubernetes/replicasmanager.go:*"}},
 		{Path: "Kvass/Gen/Coord.lean", NS: "Kvass.Gen", Imports: []string{"Kvass.Types"}, Global: coordGlobal, Sites: coordSites(), Pin: []string{"pkg/coordinator/rebalance.go:*", "pkg/coordinator/coordinator.go:Coordinator.runOnce", "pkg/shard/shard.go:*", "pkg/coordinator/types.go:*"}},
 	}
